@@ -14,7 +14,7 @@ PROP = "C04"
 TECHNIQUE = "Hypothesis-generated catalogs x statement lists x application plans vs. list-comprehension reference filter; metamorphic relations (order, grouping, idempotence, datetime==origin_time, non-mutation); spatial filter vs. exact containment oracle"
 RULE = ("one case = catalog (0..40 events, attribute values from small pools so thresholds tie with values) x 1..4 statements over "
         "{origin_time, latitude, longitude, depth, magnitude, datetime} x {<,<=,>,>=,==} with threshold = an attribute value / midpoint / "
-        "outside value x in_place x plan (list, single string, chained in a drawn order, repeated); plus spatial-filter cases on generated "
+        "outside value x in_place (Python or numpy bool) x row order (as drawn, by time, by magnitude, lexicographic) x plan (list, single string, chained in a drawn order, repeated); plus spatial-filter cases on generated "
         "lattices and load_catalog(filters=..., apply_filters=True) on a written file. Non-trivial = some statement's threshold equals an "
         "attribute value of an event and the result is neither empty nor everything; distinct = canonical JSON.")
 ASSUMPTIONS = ["statements are well-formed 'attribute op value' strings with one space between tokens; numeric thresholds written with repr()",
